@@ -79,6 +79,8 @@ type stFn struct {
 	inCatch   bool
 	collectorOps []string
 	sumRight  string // element type injected with Sum.inr ("ε", or "Unit" for token channels); "" = "ε"
+	chanVars  map[string]*stChan // local variables holding one of the stage's channels
+	needRet   bool   // the next statement must be a bare return (after `if catch { continue }`)
 	timed     bool   // sources family: sleep / recvSel / afterSel / forN are available
 	durNames  map[string]bool // int / time.Duration parameters usable as Nat values
 }
@@ -113,6 +115,9 @@ func (fn *stFn) chanIdx(e ast.Expr) (string, *stChan) {
 	case *ast.Ident:
 		if c, ok := fn.chans[x.Name]; ok {
 			return fmt.Sprint(c.idx), c
+		}
+		if c, ok := fn.chanVars[x.Name]; ok {
+			return id(x.Name), c
 		}
 		if fn.inCatch && x.Name == "exx" {
 			return "exx", &stChan{name: "exx", elem: "ε"}
@@ -353,7 +358,16 @@ func ind(n int) string { return strings.Repeat("  ", n) }
 func (fn *stFn) block(stmts []ast.Stmt, depth int, last bool) []string {
 	out := []string{}
 	for i, st := range stmts {
+		if fn.needRet {
+			fn.needRet = false
+			if !isBareReturn([]ast.Stmt{st}, false) {
+				sfail(st, "`if catch { continue }` must be followed by a bare return")
+			}
+		}
 		out = append(out, fn.stmt(st, depth, last && i == len(stmts)-1)...)
+	}
+	if fn.needRet {
+		sfail(stmts[len(stmts)-1], "`if catch { continue }` must be followed by a bare return")
 	}
 	if len(out) == 0 {
 		out = append(out, ind(depth)+"pure ()")
@@ -471,9 +485,17 @@ func (fn *stFn) stmt(st ast.Stmt, depth int, last bool) []string {
 			in, ok1 := x.Init.(*ast.AssignStmt)
 			cd, ok2 := x.Cond.(*ast.BinaryExpr)
 			po, ok3 := x.Post.(*ast.IncDecStmt)
-			if ok1 && ok2 && ok3 && in.Tok == token.DEFINE && len(in.Lhs) == 1 && len(in.Rhs) == 1 && src(in.Rhs[0]) == "0" &&
-				cd.Op == token.LSS && src(cd.X) == src(in.Lhs[0]) && po.Tok == token.INC && src(po.X) == src(in.Lhs[0]) {
+			up := ok1 && ok2 && ok3 && in.Tok == token.DEFINE && len(in.Lhs) == 1 && len(in.Rhs) == 1 && src(in.Rhs[0]) == "0" &&
+				cd.Op == token.LSS && src(cd.X) == src(in.Lhs[0]) && po.Tok == token.INC && src(po.X) == src(in.Lhs[0])
+			// for n := N; n > 0; n-- { B }  runs B exactly N times as well
+			down := ok1 && ok2 && ok3 && in.Tok == token.DEFINE && len(in.Lhs) == 1 && len(in.Rhs) == 1 &&
+				cd.Op == token.GTR && src(cd.X) == src(in.Lhs[0]) && src(cd.Y) == "0" && po.Tok == token.DEC && src(po.X) == src(in.Lhs[0])
+			if up || down {
 				cnt := src(in.Lhs[0])
+				bound := cd.Y
+				if down {
+					bound = in.Rhs[0]
+				}
 				bad := false
 				ast.Inspect(x.Body, func(n ast.Node) bool {
 					switch y := n.(type) {
@@ -489,7 +511,7 @@ func (fn *stFn) stmt(st ast.Stmt, depth int, last bool) []string {
 				if bad {
 					sfail(st, "counted loop: break/continue/goto or a use of the counter inside the body")
 				}
-				out := []string{fmt.Sprintf("%sforN %s (do", p, fn.val(cd.Y, true))}
+				out := []string{fmt.Sprintf("%sforN %s (do", p, fn.val(bound, true))}
 				out = append(out, fn.block(x.Body.List, depth+2, false)...)
 				out[len(out)-1] += ")"
 				return out
@@ -506,7 +528,42 @@ func (fn *stFn) stmt(st ast.Stmt, depth int, last bool) []string {
 			c := x.X.(*ast.CallExpr)
 			return []string{fmt.Sprintf("%svisit %s", p, fn.val(c.Args[0], false))}
 		}
+	case *ast.DeclStmt:
+		// var x T inside the loop body: a scratch variable, assigned before it is read
+		if gd, ok := x.Decl.(*ast.GenDecl); ok && gd.Tok == token.VAR {
+			okAll := true
+			for _, sp := range gd.Specs {
+				if vs, ok := sp.(*ast.ValueSpec); !ok || len(vs.Values) != 0 {
+					okAll = false
+				}
+			}
+			if okAll {
+				return nil
+			}
+		}
 	case *ast.AssignStmt:
+		if len(x.Rhs) == 1 && len(x.Lhs) == 1 {
+			// dst := rout  /  dst = lout : a local variable holding one of the stage's channels
+			if l, ok := x.Lhs[0].(*ast.Ident); ok {
+				if r, ok := x.Rhs[0].(*ast.Ident); ok {
+					if c, isCh := fn.chans[r.Name]; isCh {
+						if x.Tok == token.DEFINE {
+							if fn.chanVars == nil {
+								fn.chanVars = map[string]*stChan{}
+							}
+							fn.chanVars[l.Name] = &stChan{name: l.Name, elem: c.elem}
+							return []string{fmt.Sprintf("%slet mut %s := %d", p, id(l.Name), c.idx)}
+						}
+						if cv, ok := fn.chanVars[l.Name]; ok && x.Tok == token.ASSIGN {
+							if cv.elem != c.elem {
+								sfail(st, "channel variable assigned a channel of another element type")
+							}
+							return []string{fmt.Sprintf("%s%s := %d", p, id(l.Name), c.idx)}
+						}
+					}
+				}
+			}
+		}
 		if len(x.Rhs) == 1 {
 			if out, ok := fn.bindApply(x.Lhs, x.Rhs[0], depth); ok {
 				return out
@@ -525,57 +582,43 @@ func (fn *stFn) stmt(st ast.Stmt, depth int, last bool) []string {
 			}
 		}
 	case *ast.IfStmt:
-		out := []string{}
-		if x.Init != nil {
-			as, ok := x.Init.(*ast.AssignStmt)
-			if !ok || len(as.Rhs) != 1 {
-				sfail(x.Init, "unsupported if-initialiser %s", src(x.Init))
-			}
-			b, ok := fn.bindApply(as.Lhs, as.Rhs[0], depth)
-			if !ok {
-				sfail(x.Init, "unsupported if-initialiser %s", src(x.Init))
-			}
-			out = append(out, b...)
-		}
-		// if !f.catch(ctx, err, exx) { return }
-		if u, ok := x.Cond.(*ast.UnaryExpr); ok && u.Op == token.NOT {
-			if cc, ok := fn.catchCall(u.X); ok {
-				if x.Else != nil || !isBareReturn(x.Body.List, false) {
-					sfail(st, "a failed catch must be followed by a bare return")
-				}
-				out = append(out, p+"if !(← "+cc+") then", ind(depth+1)+"ret")
-				return out
-			}
-		}
-		// if err != nil { … }  binds the non-nil error
-		if b, ok := x.Cond.(*ast.BinaryExpr); ok && b.Op == token.NEQ && isNil(b.Y) {
-			if i, ok := b.X.(*ast.Ident); ok && fn.errVars[i.Name] && !fn.boundErr[i.Name] {
-				out = append(out, fmt.Sprintf("%sif let some %s := %s then", p, id(i.Name), id(i.Name)))
-				fn.boundErr[i.Name] = true
-				out = append(out, fn.block(x.Body.List, depth+1, last && x.Else == nil)...)
-				delete(fn.boundErr, i.Name)
-				if x.Else != nil {
-					eb, ok := x.Else.(*ast.BlockStmt)
-					if !ok {
-						sfail(x.Else, "else-if chains are not supported")
+		return fn.ifStmt(x, depth, last)
+	case *ast.SwitchStmt:
+		// a tagless switch is an if-chain
+		if x.Tag == nil && x.Init == nil {
+			var chain ast.Stmt
+			cls := x.Body.List
+			for k := len(cls) - 1; k >= 0; k-- {
+				cc := cls[k].(*ast.CaseClause)
+				for _, b := range cc.Body {
+					if br, ok := b.(*ast.BranchStmt); ok && (br.Tok == token.FALLTHROUGH || br.Tok == token.BREAK) {
+						sfail(b, "switch: fallthrough / break are not supported")
 					}
-					out = append(out, p+"else")
-					out = append(out, fn.block(eb.List, depth+1, last)...)
 				}
-				return out
+				if cc.List == nil {
+					if k != len(cls)-1 {
+						sfail(cc, "switch: default must be the last clause")
+					}
+					chain = &ast.BlockStmt{List: cc.Body}
+					continue
+				}
+				if len(cc.List) != 1 {
+					sfail(cc, "switch: one condition per case")
+				}
+				is := &ast.IfStmt{If: cc.Pos(), Cond: cc.List[0], Body: &ast.BlockStmt{Lbrace: cc.Pos(), List: cc.Body}}
+				if chain != nil {
+					is.Else = chain
+				}
+				chain = is
 			}
-		}
-		out = append(out, p+"if "+fn.cond(x.Cond, true)+" then")
-		out = append(out, fn.block(x.Body.List, depth+1, last && x.Else == nil)...)
-		if x.Else != nil {
-			eb, ok := x.Else.(*ast.BlockStmt)
-			if !ok {
-				sfail(x.Else, "else-if chains are not supported")
+			switch c := chain.(type) {
+			case *ast.IfStmt:
+				return fn.ifStmt(c, depth, last)
+			case *ast.BlockStmt:
+				return fn.block(c.List, depth, last)
 			}
-			out = append(out, p+"else")
-			out = append(out, fn.block(eb.List, depth+1, last)...)
+			return nil
 		}
-		return out
 	case *ast.SelectStmt:
 		var send *ast.SendStmt
 		var sendBody, doneBody, defBody, recvBody []ast.Stmt
@@ -641,6 +684,181 @@ func (fn *stFn) stmt(st ast.Stmt, depth int, last bool) []string {
 	return nil
 }
 
+// sel-send helpers: unexported top-level functions of the exact shape
+//
+//	func h[..](ctx context.Context, ch chan<- T, v T) bool { select { case ch <- v: return true; case <-ctx.Done(): return false } }
+//
+// (found by a pre-scan of the file); `if !h(ctx, ch, v) { return }` is then the same `selSend ch v` as the inlined select.
+var selHelpers = map[string]bool{}
+
+func scanSelHelpers(f *ast.File) {
+	for _, d := range f.Decls {
+		fd, ok := d.(*ast.FuncDecl)
+		if !ok || fd.Recv != nil || fd.Name.IsExported() || fd.Body == nil || len(fd.Body.List) != 1 {
+			continue
+		}
+		ps := []string{}
+		for _, p := range fd.Type.Params.List {
+			for _, n := range p.Names {
+				ps = append(ps, n.Name)
+			}
+		}
+		if len(ps) != 3 || ps[0] != "ctx" || fd.Type.Results == nil || len(fd.Type.Results.List) != 1 || src(fd.Type.Results.List[0].Type) != "bool" {
+			continue
+		}
+		sel, ok := fd.Body.List[0].(*ast.SelectStmt)
+		if !ok || len(sel.Body.List) != 2 {
+			continue
+		}
+		okSend, okDone := false, false
+		for _, cl := range sel.Body.List {
+			cc := cl.(*ast.CommClause)
+			if len(cc.Body) != 1 {
+				continue
+			}
+			r, isRet := cc.Body[0].(*ast.ReturnStmt)
+			if !isRet || len(r.Results) != 1 {
+				continue
+			}
+			switch c := cc.Comm.(type) {
+			case *ast.SendStmt:
+				if src(c.Chan) == ps[1] && src(c.Value) == ps[2] && src(r.Results[0]) == "true" {
+					okSend = true
+				}
+			case *ast.ExprStmt:
+				if isCtxDone(c.X) && src(r.Results[0]) == "false" {
+					okDone = true
+				}
+			}
+		}
+		if okSend && okDone {
+			selHelpers[fd.Name.Name] = true
+		}
+	}
+}
+
+// !h(ctx, ch, v)  for a sel-send helper h
+func (fn *stFn) selHelperCall(e ast.Expr) (ch, v ast.Expr, ok bool) {
+	c, isCall := e.(*ast.CallExpr)
+	if !isCall || len(c.Args) != 3 {
+		return
+	}
+	h, isId := c.Fun.(*ast.Ident)
+	if !isId || !selHelpers[h.Name] || src(c.Args[0]) != "ctx" {
+		return
+	}
+	return c.Args[1], c.Args[2], true
+}
+
+func (fn *stFn) ifStmt(x *ast.IfStmt, depth int, last bool) []string {
+	p := ind(depth)
+	out := []string{}
+	if x.Init != nil {
+		as, ok := x.Init.(*ast.AssignStmt)
+		if !ok || len(as.Rhs) != 1 {
+			sfail(x.Init, "unsupported if-initialiser %s", src(x.Init))
+		}
+		b, ok := fn.bindApply(as.Lhs, as.Rhs[0], depth)
+		if !ok {
+			sfail(x.Init, "unsupported if-initialiser %s", src(x.Init))
+		}
+		out = append(out, b...)
+	}
+	elseLines := func() []string {
+		switch e := x.Else.(type) {
+		case nil:
+			return nil
+		case *ast.BlockStmt:
+			return append([]string{p + "else"}, fn.block(e.List, depth+1, last)...)
+		case *ast.IfStmt:
+			return append([]string{p + "else"}, fn.ifStmt(e, depth+1, last)...)
+		}
+		sfail(x.Else, "unsupported else")
+		return nil
+	}
+	if u, ok := x.Cond.(*ast.UnaryExpr); ok && u.Op == token.NOT {
+		// if !f.catch(ctx, err, exx) { return }
+		if cc, ok := fn.catchCall(u.X); ok {
+			if x.Else != nil || !isBareReturn(x.Body.List, false) {
+				sfail(x, "a failed catch must be followed by a bare return")
+			}
+			return append(out, p+"if !(← "+cc+") then", ind(depth+1)+"ret")
+		}
+		// if !send(ctx, ch, v) { return }   (sel-send helper)
+		if ch, v, ok := fn.selHelperCall(u.X); ok {
+			if x.Else != nil || !isBareReturn(x.Body.List, false) || fn.inCatch {
+				sfail(x, "a failed guarded send must be followed by a bare return")
+			}
+			ci, c := fn.chanIdx(ch)
+			return append(out, fmt.Sprintf("%sselSend %s %s", p, ci, fn.inj(c, fn.val(v, true))))
+		}
+	}
+	// if f.catch(ctx, err, exx) { continue } ; return
+	if cc, ok := fn.catchCall(x.Cond); ok {
+		if x.Else != nil || len(x.Body.List) != 1 {
+			sfail(x, "unsupported use of catch")
+		}
+		if br, ok := x.Body.List[0].(*ast.BranchStmt); !ok || br.Tok != token.CONTINUE || br.Label != nil {
+			sfail(x, "unsupported use of catch")
+		}
+		fn.needRet = true
+		return append(out, p+"if (← "+cc+") then", ind(depth+1)+"next")
+	}
+	if b, ok := x.Cond.(*ast.BinaryExpr); ok {
+		// if err != nil && !f.catch(ctx, err, exx) { return }
+		if b.Op == token.LAND {
+			if l, ok := b.X.(*ast.BinaryExpr); ok && l.Op == token.NEQ && isNil(l.Y) {
+				if i, ok := l.X.(*ast.Ident); ok && fn.errVars[i.Name] && !fn.boundErr[i.Name] {
+					if u, ok := b.Y.(*ast.UnaryExpr); ok && u.Op == token.NOT {
+						fn.boundErr[i.Name] = true
+						cc, isCatch := fn.catchCall(u.X)
+						delete(fn.boundErr, i.Name)
+						if isCatch {
+							if x.Else != nil || !isBareReturn(x.Body.List, false) {
+								sfail(x, "a failed catch must be followed by a bare return")
+							}
+							return append(out, fmt.Sprintf("%sif let some %s := %s then", p, id(i.Name), id(i.Name)),
+								ind(depth+1)+"if !(← "+cc+") then", ind(depth+2)+"ret")
+						}
+					}
+				}
+			}
+		}
+		// if err != nil { A } [else { B }]   /   if err == nil { A } else { B }: the branch with the non-nil error binds it
+		if (b.Op == token.NEQ || b.Op == token.EQL) && isNil(b.Y) {
+			if i, ok := b.X.(*ast.Ident); ok && fn.errVars[i.Name] && !fn.boundErr[i.Name] && (b.Op == token.NEQ || x.Else != nil) {
+				some := func() []string {
+					fn.boundErr[i.Name] = true
+					defer delete(fn.boundErr, i.Name)
+					if b.Op == token.NEQ {
+						return fn.block(x.Body.List, depth+1, last && x.Else == nil)
+					}
+					switch e := x.Else.(type) {
+					case *ast.BlockStmt:
+						return fn.block(e.List, depth+1, last)
+					case *ast.IfStmt:
+						return fn.ifStmt(e, depth+1, last)
+					}
+					sfail(x.Else, "unsupported else")
+					return nil
+				}
+				out = append(out, fmt.Sprintf("%sif let some %s := %s then", p, id(i.Name), id(i.Name)))
+				out = append(out, some()...)
+				if b.Op == token.NEQ {
+					out = append(out, elseLines()...)
+				} else {
+					out = append(out, p+"else")
+					out = append(out, fn.block(x.Body.List, depth+1, last)...)
+				}
+				return out
+			}
+		}
+	}
+	out = append(out, p+"if "+fn.cond(x.Cond, true)+" then")
+	out = append(out, fn.block(x.Body.List, depth+1, last && x.Else == nil)...)
+	return append(out, elseLines()...)
+}
+
 // ---------------------------------------------------------------- closures choosing a channel
 
 func (fn *stFn) closure(name string, lit *ast.FuncLit) {
@@ -700,6 +918,78 @@ func (fn *stFn) closure(name string, lit *ast.FuncLit) {
 	fn.closNames[name] = true
 	fn.closures = append(fn.closures, fmt.Sprintf("let %s := fun %s => %s", id(name), strings.Join(params, " "), expr))
 }
+
+// `go worker(a1, …, an)` where worker is an unexported top-level function of the same file and every argument is a
+// plain identifier: the goroutine body is the function's body with its parameters renamed to the arguments
+// (a fresh parse of the file is renamed in place, so the caller's AST is not touched).
+func resolveGoCall(path string, call *ast.CallExpr) *ast.BlockStmt {
+	h, ok := call.Fun.(*ast.Ident)
+	if !ok {
+		return nil
+	}
+	args := []string{}
+	for _, a := range call.Args {
+		i, ok := a.(*ast.Ident)
+		if !ok {
+			return nil
+		}
+		args = append(args, i.Name)
+	}
+	f := parse(path)
+	for _, d := range f.Decls {
+		fd, ok := d.(*ast.FuncDecl)
+		if !ok || fd.Recv != nil || fd.Name.Name != h.Name || fd.Name.IsExported() || fd.Body == nil {
+			continue
+		}
+		if fd.Type.Results != nil && len(fd.Type.Results.List) != 0 {
+			return nil
+		}
+		params := []string{}
+		for _, p := range fd.Type.Params.List {
+			for _, n := range p.Names {
+				params = append(params, n.Name)
+			}
+		}
+		if len(params) != len(args) {
+			return nil
+		}
+		ren := map[string]string{}
+		for k, pn := range params {
+			ren[pn] = args[k]
+		}
+		// no local declaration may capture an argument name
+		bad := false
+		ast.Inspect(fd.Body, func(n ast.Node) bool {
+			if as, ok := n.(*ast.AssignStmt); ok && as.Tok == token.DEFINE {
+				for _, l := range as.Lhs {
+					if i, ok := l.(*ast.Ident); ok {
+						for _, a := range args {
+							if i.Name == a && ren[i.Name] == "" {
+								bad = true
+							}
+						}
+					}
+				}
+			}
+			return true
+		})
+		if bad {
+			return nil
+		}
+		ast.Inspect(fd.Body, func(n ast.Node) bool {
+			if i, ok := n.(*ast.Ident); ok {
+				if to, ok := ren[i.Name]; ok {
+					i.Name = to
+				}
+			}
+			return true
+		})
+		return fd.Body
+	}
+	return nil
+}
+
+var currentFile string
 
 // ---------------------------------------------------------------- one stage function
 
@@ -989,6 +1279,12 @@ func stage(fd *ast.FuncDecl) string {
 					continue
 				}
 			}
+			if worker == nil && !hasWG {
+				if b := resolveGoCall(currentFile, x.Call); b != nil {
+					worker = &stWorker{body: b, workers: "one"}
+					continue
+				}
+			}
 		case *ast.ReturnStmt:
 			if i != len(stmts)-1 {
 				sfail(st, "return before the end")
@@ -1036,10 +1332,11 @@ func stage(fd *ast.FuncDecl) string {
 	if worker.param != "" {
 		fn.inName = worker.param
 	}
-	closesRev := []string{}
-	final := []string{}
-	var loop *ast.RangeStmt
-	sawDone := false
+	// deferred operations: one list per defer statement (source order inside it); they run in LIFO order of the defers
+	type dop struct{ kind, ch, val string } // kind: send | close | done
+	defers := [][]dop{}
+	var loopBody []ast.Stmt
+	var loopNode ast.Stmt
 	wb := worker.body.List
 	for i, st := range wb {
 		switch x := st.(type) {
@@ -1047,41 +1344,38 @@ func stage(fd *ast.FuncDecl) string {
 			if _, n, args, ok := callName(x.Call); ok {
 				if r, _, _, _ := callName(x.Call); r == "" && n == "close" && len(args) == 1 && !hasWG {
 					ci, _ := fn.chanIdx(args[0])
-					closesRev = append(closesRev, ci)
+					defers = append(defers, []dop{{"close", ci, ""}})
 					continue
 				}
-				if src(x.Call) == "wg.Done()" && hasWG && !sawDone {
-					sawDone = true
+				if src(x.Call) == "wg.Done()" && hasWG {
+					defers = append(defers, []dop{{"done", "", ""}})
 					continue
 				}
 			}
-			if lit, ok := x.Call.Fun.(*ast.FuncLit); ok && len(x.Call.Args) == 0 && len(final) == 0 {
-				inner := []string{}
+			if lit, ok := x.Call.Fun.(*ast.FuncLit); ok && len(x.Call.Args) == 0 {
+				ops := []dop{}
 				for _, s := range lit.Body.List {
-					if snd, ok := s.(*ast.SendStmt); ok && len(inner) == 0 && !sawDone {
+					if snd, ok := s.(*ast.SendStmt); ok {
 						ci, ch := fn.chanIdx(snd.Chan)
 						v, ok := snd.Value.(*ast.Ident)
 						if !ok || v.Name != fn.stateVar || fn.stateVar == "" {
 							sfail(s, "deferred send of something that is not the accumulator")
 						}
-						final = append(final, fmt.Sprintf("(%s, %s)", ci, fn.inj(ch, "s")))
+						ops = append(ops, dop{"send", ci, fn.inj(ch, "s")})
 						continue
 					}
-					if src(s) == "wg.Done()" && hasWG && !sawDone {
-						sawDone = true
+					if src(s) == "wg.Done()" && hasWG {
+						ops = append(ops, dop{"done", "", ""})
 						continue
 					}
 					if _, n, args, ok := callNameStmt(s); ok && n == "close" && len(args) == 1 && !hasWG {
 						ci, _ := fn.chanIdx(args[0])
-						inner = append(inner, ci)
+						ops = append(ops, dop{"close", ci, ""})
 						continue
 					}
 					sfail(s, "deferred function: unsupported statement %s", src(s))
 				}
-				// closes inside one deferred function run in source order; as a group they take this defer's place
-				for j := len(inner) - 1; j >= 0; j-- {
-					closesRev = append(closesRev, inner[j])
-				}
+				defers = append(defers, ops)
 				continue
 			}
 		case *ast.DeclStmt:
@@ -1112,31 +1406,82 @@ func stage(fd *ast.FuncDecl) string {
 			if i != len(wb)-1 {
 				sfail(st, "statements after the worker loop")
 			}
-			loop = x
+			if src(x.X) != fn.inName {
+				sfail(x, "worker ranges over %s, not over the input", src(x.X))
+			}
+			if x.Value != nil {
+				sfail(x, "two-variable range over a channel")
+			}
+			if x.Key != nil {
+				fn.loopVar = x.Key.(*ast.Ident).Name
+			}
+			loopNode, loopBody = x, x.Body.List
 			continue
+		case *ast.ForStmt:
+			// for { a, ok := <-in; if !ok { return }; BODY }   ==   for a = range in { BODY }
+			if i == len(wb)-1 && x.Init == nil && x.Cond == nil && x.Post == nil && len(x.Body.List) >= 2 {
+				as, ok1 := x.Body.List[0].(*ast.AssignStmt)
+				gd, ok2 := x.Body.List[1].(*ast.IfStmt)
+				if ok1 && ok2 && len(as.Lhs) == 2 && len(as.Rhs) == 1 && gd.Init == nil && gd.Else == nil {
+					u, okU := as.Rhs[0].(*ast.UnaryExpr)
+					if okU && u.Op == token.ARROW && src(u.X) == fn.inName && src(gd.Cond) == "!"+src(as.Lhs[1]) &&
+						(isBareReturn(gd.Body.List, false) || (len(gd.Body.List) == 1 && src(gd.Body.List[0]) == "break")) {
+						if v, ok := as.Lhs[0].(*ast.Ident); ok && v.Name != "_" {
+							fn.loopVar = v.Name
+						}
+						// the second result must not be used again
+						okName := src(as.Lhs[1])
+						for _, rest := range x.Body.List[2:] {
+							ast.Inspect(rest, func(n ast.Node) bool {
+								if id, ok := n.(*ast.Ident); ok && id.Name == okName {
+									sfail(rest, "the `ok` of the receive is used after its test")
+								}
+								return true
+							})
+						}
+						loopNode, loopBody = x, x.Body.List[2:]
+						continue
+					}
+				}
+			}
 		}
 		sfail(st, "worker: unsupported statement %s", src(st))
 	}
-	if loop == nil {
+	if loopNode == nil {
 		sfail(fd, "worker has no range loop")
 	}
-	if hasWG && !sawDone {
-		sfail(fd, "worker never calls wg.Done()")
+	// execution order of the deferred operations
+	exec := []dop{}
+	for k := len(defers) - 1; k >= 0; k-- {
+		exec = append(exec, defers[k]...)
 	}
-	if src(loop.X) != fn.inName {
-		sfail(loop, "worker ranges over %s, not over the input", src(loop.X))
+	closesDef := []string{}
+	final := []string{}
+	nDone := 0
+	for k, o := range exec {
+		switch o.kind {
+		case "send":
+			if len(closesDef) != 0 || nDone != 0 {
+				sfail(fd, "a deferred send runs after a deferred close / wg.Done()")
+			}
+			final = append(final, fmt.Sprintf("(%s, %s)", o.ch, o.val))
+		case "close":
+			closesDef = append(closesDef, o.ch)
+		case "done":
+			nDone++
+			if k != len(exec)-1 {
+				sfail(fd, "wg.Done() is not the last deferred operation")
+			}
+		}
 	}
-	if loop.Value != nil {
-		sfail(loop, "two-variable range over a channel")
-	}
-	if loop.Key != nil {
-		fn.loopVar = loop.Key.(*ast.Ident).Name
+	if hasWG && nDone != 1 {
+		sfail(fd, "worker calls wg.Done() %d times", nDone)
 	}
 	// the int parameter mutated in the loop is the loop-carried counter
 	if fn.nName != "" && fn.stateVar == "" {
 		fn.stateVar, fn.stateTy, fn.stateInit = fn.nName, "Int", "n"
 	}
-	body := fn.block(loop.Body.List, 1, true)
+	body := fn.block(loopBody, 1, true)
 	sigma := "Unit"
 	initV := "()"
 	switch {
@@ -1190,13 +1535,11 @@ func stage(fd *ast.FuncDecl) string {
 	if closerKind == "waitGroup" {
 		ck = "waitGroup"
 		closes = closer
-		if len(closesRev) != 0 {
+		if len(closesDef) != 0 {
 			sfail(fd, "both deferred closes and a closer goroutine")
 		}
 	} else {
-		for j := len(closesRev) - 1; j >= 0; j-- {
-			closes = append(closes, closesRev[j])
-		}
+		closes = closesDef
 	}
 	fmt.Fprintf(&sb, "def cfg : Cfg := { workers := .%s, closer := .%s, caps := fun inCap par nIn errch => [%s], closes := [%s] }\n",
 		worker.workers, ck, strings.Join(caps, ", "), strings.Join(closes, ", "))
@@ -1363,6 +1706,24 @@ func catchFamily(f *ast.File) string {
 					sfail(fd, "errch: capacity %s", src(args[1]))
 				}
 				fmt.Fprintf(&sb, "def %s_errch (cap : Nat) : Nat := %s\n\n", tn.Name, c)
+			case "pipef":
+				// return pipe.Lift(f) | pipe.Try(f)
+				if len(fd.Body.List) != 1 {
+					sfail(fd, "pipef: not a single return")
+				}
+				r, ok := fd.Body.List[0].(*ast.ReturnStmt)
+				if !ok || len(r.Results) != 1 {
+					sfail(fd, "pipef: not a single return")
+				}
+				rc, n, args, ok := callName(r.Results[0])
+				recv := ""
+				if len(fd.Recv.List[0].Names) == 1 {
+					recv = fd.Recv.List[0].Names[0].Name
+				}
+				if !ok || rc != "pipe" || len(args) != 1 || src(args[0]) != recv {
+					sfail(fd, "pipef: expected `return pipe.X(f)`")
+				}
+				fmt.Fprintf(&sb, "def %s_pipef : String := %q\n\n", tn.Name, "pipe."+n)
 			case "catch":
 				fn := &stFn{fd: fd, name: tn.Name + ".catch", chans: map[string]*stChan{}, boundErr: map[string]bool{"err": true}, errVars: map[string]bool{"err": true},
 					boolVars: map[string]bool{}, valVars: map[string]string{}, closNames: map[string]bool{}, tyMap: map[string]string{}, inCatch: true, sumOut: true}
@@ -1402,6 +1763,8 @@ func stagesFamily(files []string) string {
 	fmt.Fprintf(&sb, "namespace Golem.Gen.%s\nopen Golem.Go Golem.Model.DSL\n\nvariable {σ α β ε : Type}\n\n", ns)
 	sb.WriteString(catchFamily(parse(files[0])))
 	f := parse(files[1])
+	currentFile = files[1]
+	scanSelHelpers(f)
 	for _, d := range f.Decls {
 		fd, ok := d.(*ast.FuncDecl)
 		if !ok || fd.Recv != nil || !fd.Name.IsExported() || fd.Body == nil {
